@@ -58,9 +58,9 @@ def rich_numeric_in_groups(dom):
         if isinstance(c[1], list) and c[1][0] not in pddl.NUM_OPS and \
                 (isinstance(c[2], str) or c[2][0] not in pddl.NUM_OPS) and c[1] != c[2]:
             return True
-        # simplifier-stable as well: an equality the library eliminates with, (= (+ A B) 0 | number | C), over plain fluents
+        # simplifier-stable as well: an equality the library eliminates with, (= (+ A B) 0 | number | C), over plain fluents (and the same over a difference)
         plain = lambda e: isinstance(e, list) and e and e[0] not in pddl.NUM_OPS
-        if c[0] == "=" and isinstance(c[1], list) and c[1][0] == "+" and len(c[1]) == 3 and plain(c[1][1]) and plain(c[1][2]) \
+        if c[0] == "=" and isinstance(c[1], list) and c[1][0] in ("+", "-") and len(c[1]) == 3 and plain(c[1][1]) and plain(c[1][2]) \
                 and c[1][1] != c[1][2] and ((isinstance(c[2], str) and pddl.is_number(c[2]) and (Fraction(c[2]) * 100).denominator == 1)
                                             or (plain(c[2]) and c[2] not in (c[1][1], c[1][2]))):
             return True
